@@ -14,7 +14,8 @@ RULE = ("four generated sub-checks. (1) retarget arithmetic: calculate_new_targe
         "(2) histories with exactly one header rule broken per mutated candidate (target +-1, un-retargeted at a boundary, the "
         "target the rule would give from ANOTHER branch's interval start, "
         "retargeted inside a period, height +-1, reward height +-1, timestamp = / < parent's, = now+31, id >= target, each "
-        "evidence field flipped in one bit, evidence of a sibling, unknown parent, wrong merkle root) under patched short "
+        "evidence field flipped in one bit, evidence of a sibling, unknown parent, wrong merkle root, the height written without "
+        "the deployed leading 0x80 octet on bases at heights 64..127 / 8192..16383 / 2^20..) under patched short "
         "periods AND on fabricated deep states with the real 10,080/1,209,600 and forks straddling a real boundary; the "
         "validator clock is generated; oracle: acceptance => every reference header clause. (3) construct_pow_evidence == "
         "independent reference evidence on every block of generated forked chains; select_block_height/slice == reference "
@@ -281,7 +282,7 @@ def run(shard, tier, seed):
     chainexec.Run.execute = execute_and_compare
     try:
         r = chainexec.drive(res, env.subseed(seed, ID, shard["i"]), n, tier, FOCUS, CATS, ID, n_blocks=nb, p_mut=0.45, p_deep=0.25,
-                            p_fork=0.55, dts_mix=[None, [60, 90, 120, 150, 240, 400], [100, 120, 140, 1000]])
+                            p_fork=0.55, dts_mix=[None, [60, 90, 120, 150, 240, 400], [100, 120, 140, 1000]], deep_vlq_edge=0.3)
     finally:
         chainexec.Run.execute = orig
     return r
